@@ -101,6 +101,8 @@ Lemma trapzf_scale_y {T} c (x y : T -> Q) pts : trapzf x (fun t => c * y t) pts 
 Proof. induction pts as [|a [|b r] IH]; try (simpl; lra). rewrite !trapzf_cons2, IH. lra. Qed.
 Lemma trapzf_zero_x {T} (y : T -> Q) pts : trapzf (fun _ => 0) y pts == 0.
 Proof. induction pts as [|a [|b r] IH]; try (simpl; lra). rewrite !trapzf_cons2, IH. lra. Qed.
+Lemma trapzf_const_x {T} c (y : T -> Q) pts : trapzf (fun _ => c) y pts == 0.
+Proof. induction pts as [|a [|b r] IH]; try (simpl; lra). rewrite !trapzf_cons2, IH. lra. Qed.
 Lemma trapzf_zero_y {T} (x : T -> Q) pts : trapzf x (fun _ => 0) pts == 0.
 Proof. induction pts as [|a [|b r] IH]; try (simpl; lra). rewrite !trapzf_cons2, IH. lra. Qed.
 
